@@ -18,6 +18,18 @@ def shapes(tier, seed):
     depth = 2 if tier == "quick" else 4
     out = [{"kind": "pred", "ast": p} for p in exprgen.pred_pool(depth, wide=(tier == "thorough"))]
     out += [{"kind": "expr", "ast": e} for e in exprgen.expr_pool(2 if tier == "quick" else 3)]
+    # comparisons between two literals (folding candidates), integers and mixed integer / float
+    L = lambda v: ("lit", v)  # noqa: E731
+    lits = [(2, 1.5), (1, 1.5), (-1, 0.5), (1.5, 2), (3, 2), (2, 2), (0, -0.0), (1, 2), (-1, -1.0)]
+    for x, y in lits:
+        for op in ("lt", "le", "gt", "ge", "eq", "ne"):
+            p = (op, L(x), L(y))
+            out.append({"kind": "pred", "ast": p})
+        out.append({"kind": "pred", "ast": ("not", ("lt", L(x), L(y)))})
+        out.append({"kind": "pred", "ast": ("or", ("lt", L(x), L(y)), ("and", ("eq", L(x), L(y)), ("plit", True)))})
+        if isinstance(x, int):
+            out.append({"kind": "pred", "ast": ("or", ("gt", ("ref", "a"), L("$k")), ("eq", L(x), L(y)))})
+            out.append({"kind": "pred", "ast": ("and", ("gt", ("ref", "a"), L("$k")), ("not", ("ge", L(x), L(y))))})
     return out
 
 
@@ -34,8 +46,10 @@ def run_shape(shape, tier):
     is_pred = shape["kind"] == "pred"
     notes = {}
 
+    closed = "$" not in repr(ast) and "'ref'" not in repr(ast) and "'pref'" not in repr(ast)
+
     def h(ctx):
-        env = Env(symbolic=True)
+        env = Env(symbolic=not closed)  # closed expressions (literals only) keep their plain Python values
         row = _bind(ctx, env)
         zrow = {c: row[c].t for c in COLS}
         truth = exprsem.z3_of_ast(ast, zrow, env.bind)
